@@ -179,12 +179,38 @@ Definition pcr_span (ss : list stmt) (this : N) (s : stmt) : bool * N * N :=
   let '(from, count) := if backward then (N.to_nat rel, N.to_nat (this + 1 - rel)) else (N.to_nat this, N.to_nat (rel - this)) in
   (backward, sum_range (fun x => cp_size (s_pkg x)) ss from count + 2, sum_range (fun x => cp_max (s_pkg x)) ss from count + 2).
 
+(* ExpressionValue.constant_offset: the constant that label+n, n+label or label-n adds to its label (F34) *)
+Definition const_offset (v : value) : option Z :=
+  match v with
+  | VExpr l op r _ true =>
+      let sg := fun x => if v_negative x then (- Z.of_N (v_int x))%Z else Z.of_N (v_int x) in
+      if (op =? 43) && v_is_address l && v_is_numeric r then Some (sg r)
+      else if (op =? 43) && v_is_address r && v_is_numeric l then Some (sg l)
+      else if (op =? 45) && v_is_address l && v_is_numeric r then Some (- sg r)%Z
+      else None
+  | _ => Some 0%Z
+  end.
+
+(* (offset, forced) for the statement's PCR target *)
+Definition pcr_offset (s : stmt) (force : bool) : Z * bool :=
+  match operand_left (s_operand s) with
+  | Some (LVal (VExpr l op r m true)) =>
+      match const_offset (VExpr l op r m true) with Some k => (k, force) | None => (0%Z, true) end
+  | _ => (0%Z, force)
+  end.
+
+(* does the estimate allow the 8-bit form? *)
+Definition pcr_fits8 (backward : bool) (mn mx : N) (off : Z) : bool :=
+  if backward then (mn <=? 128) && (mx <=? 128) && (off <=? 127)%Z && (-128 <=? off - Z.of_N mx)%Z
+  else (mn <=? 127) && (mx <=? 127) && (-128 <=? off)%Z && (Z.of_N mx + off <=? 127)%Z.
+
 (* Statement.determine_pcr_relative_sizes(statements, this_index, force_16_bit) *)
 Definition determine (ss : list stmt) (this : N) (force : bool) (s : stmt) : res stmt :=
   let '(backward, mn, mx) := pcr_span ss this s in
+  let '(off, force') := pcr_offset s force in
   let lim := if backward then 128 else 127 in
-  if (mn <=? lim) && (mx <=? lim) then pcr_pick s 0%nat 1 2
-  else if force || ((lim <? mn) && (lim <? mx)) then pcr_pick s 1%nat 2 4
+  if pcr_fits8 backward mn mx off && negb force' then pcr_pick s 0%nat 1 2
+  else if force' || negb (off =? 0)%Z || ((lim <? mn) && (lim <? mx)) then pcr_pick s 1%nat 2 4
   else Ok s.
 
 Fixpoint update_nth {A} (k : nat) (a : A) (l : list A) : list A :=
@@ -335,7 +361,8 @@ Definition fix_stmt (ss : list stmt) (this : N) (s : stmt) : res stmt :=
                       | _ => do a <- addr_of ss (v_int (cp_add (s_pkg s1))); Ok (Z.of_N a)
                       end);
         do start <- addr_of ss this;
-        do n <- as_translation_error (num_of_Z (target - Z.of_N start - Z.of_N (cp_size p))%Z (Some (s_hint s)) MNone);
+        let jump := (((target - Z.of_N start - Z.of_N (cp_size p)) + 32768) mod 65536 - 32768)%Z in
+        do n <- as_translation_error (num_of_Z jump (Some (s_hint s)) MNone);
         Ok (with_add s1 (VNum n))
       else Ok s1
     end.
